@@ -189,6 +189,10 @@ class C12:
                     # the SAME malformed text twice in one row (two spines): still one error per cell
                     dup = frng.choice(same_row)
                     text, kind, fam = dup['text'], dup['kind'], dup['family']
+                    if kind in ('unlexable-adjacent', 'unicode-digit', 'garbage-appended'):
+                        # these texts were derived from the OTHER cell's own token; in this cell no claim is made that the
+                        # damage is adjacent to a complete token, so the outcome is classified, not demanded
+                        fam = 'tail'
                 chosen[(ri, ci)] = {'row': ri, 'col': ci, 'text': text, 'kind': kind, 'family': fam}
             faults = [chosen[k2] for k2 in sorted(chosen)]
             if erng.random() < 0.12:
